@@ -439,7 +439,7 @@ func ruleTxn2(c *Ctx, r *Reporter) {
 			if call, ok := in.(*ssa.Call); ok && calleeObj(&call.Call) == newTxn {
 				nNew++
 				top := outermost(fn)
-				r.check(c.ssaFunc(begin) == top, funcName(fn)+":NewTransaction", c.pos(in.Pos()), "transactions are created by Engine.Begin", "a transaction is created outside Engine.Begin (not registered with the engine)")
+				r.check(c.ssaFunc(begin) == top || inCone(c.ssaFunc(begin), top), funcName(fn)+":NewTransaction", c.pos(in.Pos()), "transactions are created by Engine.Begin", "a transaction is created outside Engine.Begin (not registered with the engine)")
 			}
 		})
 	}
